@@ -175,6 +175,12 @@ WORLDS = {
     "noseg-2d-csv": dict(ndim=3, seg=False, scale=None, pos="single", extra=[], custom=False, ids="compute", reload="csv"),
     "noseg-2d-geff": dict(ndim=3, seg=False, scale=None, pos="single", extra=[], custom=False, ids="compute", reload="geff"),
     "seg-2d-geff": dict(ndim=3, seg=True, scale=[1.0, 2.0, 0.75], pos="single", extra=["iou"], custom=False, ids="compute", reload="geff"),
+    # ... with the measurements and IoU loaded from the file instead of recomputed
+    "seg-2d-geff-loaded": dict(ndim=3, seg=True, scale=[1.0, 1.0, 1.0], pos="single", extra=["iou", "circularity"], custom=False,
+                               ids="compute", reload="geff", load_features=True),
+    # ... written from an object whose area values were stale, imported with "recompute area"
+    "seg-2d-geff-recompute": dict(ndim=3, seg=True, scale=[1.0, 2.0, 0.75], pos="single", extra=[], custom=False, ids="featuredict",
+                                  stale=["area"], reload="geff", recompute=["area"]),
     "noseg-3d": dict(ndim=4, seg=False, scale=[1.0, 2.0, 1.0, 0.75], pos="single", extra=[], custom=True, ids="compute"),
     "noseg-2d-axes": dict(ndim=3, seg=False, scale=None, pos="axes", extra=[], custom=True, ids="compute"),
     "seg-2d": dict(ndim=3, seg=True, scale=None, pos="single", extra=["iou"], custom=True, ids="compute"),
@@ -391,10 +397,25 @@ def _through_files(tracks, w):
             export_to_geff(tracks, d / "g")
             nmap = {"time": f.time_key, "pos": axes, "track_id": f.tracklet_key, "lineage_id": f.lineage_key}
             has_seg = tracks.segmentation is not None
+            kw = {}
+            if w.get("load_features"):
+                # measurements and IoU are taken from the file, not recomputed
+                nkeys = [k for k in f.node_features if k not in (f.time_key, f.position_key, f.tracklet_key, f.lineage_key)]
+                for k in nkeys:
+                    nmap[k] = k
+                kw["node_features"] = {k: False for k in nkeys}
+                if "iou" in f.edge_features and tracks.graph.number_of_edges():
+                    kw["edge_name_map"] = {"iou": "iou"}
+                    kw["edge_features"] = {"iou": False}
+            if w.get("recompute"):
+                for k in w["recompute"]:
+                    nmap[k] = k
+                kw["node_features"] = {k: True for k in w["recompute"]}
+            scale = w.get("import_scale", None if tracks.scale is None else list(tracks.scale))
             back = import_from_geff(d / "g" / "tracks", node_name_map=nmap,
                                     segmentation_path=(d / "g" / "segmentation") if has_seg else None,
-                                    scale=None if tracks.scale is None else list(tracks.scale))
-            if w["extra"]:
+                                    scale=scale, **kw)
+            if w["extra"] and not w.get("load_features"):
                 back.enable_features(list(w["extra"]))
     finally:
         shutil.rmtree(d, ignore_errors=True)
